@@ -204,15 +204,42 @@ def mutate_call(rng, c, spec, nan_p1):
     return d
 
 
+def toggle_open_start(rng, c, spec):
+    """A call that differs from `c` only in an omitted start vs a relative start of exactly 0.0 (different selections when
+    the log begins with messages without P1 time): the cache must tell the two apart."""
+    d = dict(c)
+    tr = c['tr']
+    if tr is None:
+        d['tr'] = (0.0, None, False)
+    elif tr[0] is None:
+        d['tr'] = (0.0, tr[1], False)
+    elif tr[0] == 0.0 and not tr[2]:
+        d['tr'] = None if tr[1] is None else (None, tr[1], False)
+    else:
+        d['tr'] = (0.0, None, False) if rng.random() < 0.5 else None
+    untimed = sorted(set(s[0] for s in spec if s[1] is None))
+    if untimed and d['types'] is not None and rng.random() < 0.7:
+        d['types'] = tuple(sorted(set(d['types']) | {untimed[0]}))
+    d['align'] = 0
+    d['aligned'] = None
+    return d
+
+
 def gen_history(rng, spec, nan_p1, length):
     h = [gen_call(rng, spec, nan_p1)]
     while len(h) < length:
         r = rng.random()
-        if r < 0.65:
+        if r < 0.12:
+            base = rng.choice(h)
+            t = toggle_open_start(rng, base, spec)
+            if t['types'] != base['types'] and len(h) + 1 < length:
+                h.append(dict(base, types=t['types'], align=0, aligned=None))
+            h.append(t)
+        elif r < 0.65:
             h.append(mutate_call(rng, rng.choice(h), spec, nan_p1))
         else:
             h.append(gen_call(rng, spec, nan_p1))
-    return h
+    return h[:max(length, 1)]
 
 
 def kwargs_of(F, c):
